@@ -88,7 +88,9 @@ structure Held where
   w : Bool
 deriving DecidableEq, Repr
 
-/-- one read or write site of an object class, with the *package-level* mutexes provably held there -/
+/-- one read or write site of an object class, with the mutexes provably held there that can protect the class:
+    package-level mutexes, and — for a data field of a struct with a mutex field, accessed through the method
+    receiver — that same receiver's mutex field -/
 structure Access where
   id : Nat
   cls : Cls
